@@ -3,19 +3,25 @@
    (Spec/FormatSpec.v sem): account strings are replaced and the file is printed by
    syntax.FormatFile, i.e. by [render] (Model/SynRender.v; FormatProofs: format = render).
 
-   NOT modelled: the score (floating point, math.Log) and therefore WHICH candidate wins.
    [choose k cands] stands for the k-th call of inferAccount (k counts placeholder
    occurrences in file order, credit before debit): it is given the candidate list -- the
    keys of countByAccount, sorted, without the other account of the booking -- and returns the
-   winner, or None when the list is empty.
+   winner, or None when the list is empty.  WHICH candidate wins (the score) is not part of
+   this file: the theorems about it hold for every valid [choose], the check passes the
+   binary's own choices; the choice itself is modelled in Model/BayesScore.v, which
+   instantiates this model (Proofs/InferChoice.v infer_scored_is_infer_with).
 
    Two variants:
-   * [Orig]  the code as it is: with no candidate, `best` stays "" and the placeholder is
-             replaced by an EMPTY account; the `other` of the debit side is the credit account
-             as it was BEFORE inference (so both sides of `TBD TBD` may get the same account).
-   * [Fixed] the repaired code (findings/C15-*.patch): no candidate -> the booking keeps its
-             account; the debit side excludes the credit account as it is AFTER inference.
-   The training file is read without following includes.  Executable definitions only.      *)
+   * [Fixed] THE MODEL: bayes.go as it is since /repo e8bd689 ("fix: infer must leave a booking
+             alone when there is no candidate, and choose deterministically"): no candidate ->
+             the booking keeps its account; the debit side excludes the credit account as it is
+             AFTER inference; candidates are visited in sorted order.
+   * [Orig]  bayes.go before e8bd689, kept only for the *_refuted theorems of Properties/C15.v
+             (finding F10): with no candidate, `best` stayed "" and the placeholder was replaced
+             by an EMPTY account; the `other` of the debit side was the credit account as it was
+             BEFORE inference (so both sides of `TBD TBD` could get the same account).
+   The model takes ONE training text: `include` directives of the training file (the command
+   reads it with ParseFileRecursively) are not followed.  Executable definitions only.       *)
 From Coq Require Import ZArith List Bool.
 From Knut Require Import Model.Bytes Model.Utf8 Model.Scanner Model.Parser Model.SynPrinter
   Spec.FormatSpec Model.SynRender.
